@@ -166,14 +166,14 @@ def c12c_audit_upto(ex, st, d, db, k):
 @spec('c12c_audit_in_order')
 def c12c_audit_in_order(ex, st, lst, d, db, K):
     """the errors of the audit of each of the first K formulas sit in `lst`, one formula after the other, after the (at most two)
-       placement errors of that formula:   forall q < K, j < aud_nerr(formula q):  lst[N(q) + flags(q) + j] == aud_err(formula q)[j]"""
+       placement errors of that formula:   forall q < K, j < aud_nerr(formula q):  lst[N(q+1) - aud_nerr(formula q) + j] == aud_err(formula q)[j]"""
     from pyvc import lib
     ln, la, _ = lib.seq_parts(ex, st, lst)
     F, flag, nerr, earr, N = _audit_terms(ex, st, d, db)
     c12c_audit_upto(ex, st, d, db, K)
     Kt = as_int(K)
     q, j = z3.Int(fresh_name('q')), z3.Int(fresh_name('j'))
-    off = N(q) + flag('draws', q) + flag('rv', q)
+    off = N(q + 1) - nerr(q)        # = N(q) + the placement errors of formula q
     bounded = _forall([q], z3.Implies(z3.And(q >= 0, q < Kt), z3.And(N(q + 1) <= ln, N(q + 1) == N(q) + flag('draws', q) + flag('rv', q) + nerr(q),
                                                                      nerr(q) >= 0, N(q) >= 0)), N(q + 1))
     placed = _forall([q, j], z3.Implies(z3.And(q >= 0, q < Kt, j >= 0, j < nerr(q)), z3.Select(la, off + j) == z3.Select(earr(q), j)),
